@@ -492,6 +492,16 @@ fn unit_sits() -> Vec<UnitSit> {
         UnitSit { src: |a, b| (format!("{a}px"), format!("{b}em")), unit: "px", end: err },
         // integers written as decimals
         UnitSit { src: |a, b| (format!("{a}.0"), format!("{b}.00")), unit: "", end: same },
+        // one bound unitless, the other with a unit that is not a length (the
+        // unitless bound is taken as it stands; `%`, `fr` and unitless share a
+        // dimension, `deg`/`s`/`em` do not)
+        UnitSit { src: |a, b| (format!("{a}%"), format!("{b}")), unit: "%", end: same },
+        UnitSit { src: |a, b| (format!("{a}"), format!("{b}%")), unit: "", end: same },
+        UnitSit { src: |a, b| (format!("{a}fr"), format!("{b}")), unit: "fr", end: same },
+        UnitSit { src: |a, b| (format!("{a}"), format!("{b}fr")), unit: "", end: same },
+        UnitSit { src: |a, b| (format!("{a}deg"), format!("{b}")), unit: "deg", end: same },
+        UnitSit { src: |a, b| (format!("{a}"), format!("{b}s")), unit: "", end: same },
+        UnitSit { src: |a, b| (format!("{a}em"), format!("{b}")), unit: "em", end: same },
         // non-integers
         UnitSit { src: |a, b| (format!("{a}.5"), format!("{b}")), unit: "", end: err },
         UnitSit { src: |a, b| (format!("{a}"), format!("{b}.5px")), unit: "", end: err },
